@@ -281,6 +281,9 @@ class Ev:
         self._put_list(L, None, inner, newidx, node)
 
     def single_idx_axiom(self, inner, idx, n):
+        from . import engine as _e
+        if not _e.IDX_SKOLEM:
+            return z3.BoolVal(True)
         k = z3.Int("ix_k")
         x = inner[k]
         return z3.ForAll([k], z3.Implies(z3.And(k >= 0, k < n), z3.And(idx[x] >= 0, idx[x] < n, inner[idx[x]] == x)),
@@ -462,6 +465,16 @@ class Ev:
 
     def ev_BinOp(self, e):
         a = self.ev(e.left)
+        if isinstance(e.op, ast.Mult) and a.ty.k == "int" and isinstance(e.right, ast.BinOp) \
+                and isinstance(e.right.op, (ast.Add, ast.Sub)) and not z3.is_int_value(z3.simplify(a.t)):
+            # a * (b +- c) is distributed at translation time (identity of integer multiplication); keeps VCs linear in imul terms
+            b = self.ev(e.right.left)
+            c = self.ev(e.right.right)
+            if b.ty.k == "int" and c.ty.k == "int":
+                p1 = self.binop(ast.Mult(), a, b, e)
+                p2 = self.binop(ast.Mult(), a, c, e)
+                return self.binop(e.right.op, p1, p2, e)
+            return self.binop(e.op, a, self.binop(e.right.op, b, c, e.right), e)
         b = self.ev(e.right)
         return self.binop(e.op, a, b, e)
 
@@ -497,6 +510,8 @@ class Ev:
         if isinstance(op, ast.Sub):
             return Val(a.t - b.t, ty)
         if isinstance(op, ast.Mult):
+            if ty.k == "int" and not z3.is_int_value(z3.simplify(a.t)) and not z3.is_int_value(z3.simplify(b.t)):
+                return Val(num.use_imul(self.u)(a.t, b.t), INT)
             return Val(a.t * b.t, ty)
         if isinstance(op, ast.Div):
             ar = a.t if ty.k == "real" else z3.ToReal(a.t)
@@ -507,6 +522,8 @@ class Ev:
             if ty.k != "int":
                 raise Unsupported("floor division of reals")
             self.need(b.t > 0, "floordiv-positive-divisor", node)
+            if not z3.is_int_value(z3.simplify(b.t)):
+                return Val(num.use_idiv(self.u)(a.t, b.t), INT)
             return Val(a.t / b.t, INT)
         if isinstance(op, ast.Mod):
             if ty.k != "int":
